@@ -131,6 +131,95 @@ theorem reverseSweep_vjp (K S : ℕ) (Θ δΘ : Params R) (gates : List (PGate n
     pairing K S out.2.2 δΘ + vdot out.2.1 δψ = pairing K S G0 δΘ + vdot gout (dforward Θ δΘ gates ψ0 δψ) :=
   sweep_vjp K S Θ δΘ gates hwf hun hr ψ0 δψ gout G0
 
+/-! ## `kind='custom'` gates (`GroverOracle`, `FractionalGroverOracle`; `query/_gradient_model.py:47-105`)
+
+`PGate.custom src diag` multiplies the entries selected by `diag` by the scalar of its source (`-1` for `GroverOracle`, row
+`ind_torch` of the stacked tensor `fractional_grover_oracle` for a trainable `FractionalGroverOracle`).  The sweep theorems
+above and below quantify over gate lists that contain such gates; the three statements here single out what the repaired
+defect `circuit-grad:custom-gate` (numqi 3270353) violated: the slot of a trainable custom gate must receive `op_grad`. -/
+
+/-- **The custom-gate rule is the adjoint of `(δa, δψ) ↦ diag(δa)ψ + diag(a)δψ`**, computed from the conjugated output state as
+the code does; `|a|² = 1` is what makes the un-applied `q0_conj` equal to `conj ψ`. -/
+theorem customGate_vjp (a : R) (ha : star a * a = 1) (d : Bits n → Bool) (ψ g δψ : Vec n R) (δa : R) :
+    let out := customGrad a d (conjVec (customApply a d ψ)) g
+    out.1 = conjVec ψ ∧
+    vdot g (fun x => (if d x then ψ x * δa else 0) + customApply a d δψ x)
+      = star (scalarOf out.2.2) * δa + vdot out.2.1 δψ := by
+  intro out
+  have h1 : out.1 = conjVec ψ := unapply_custom a ha d ψ
+  refine ⟨h1, ?_⟩
+  have h2 : scalarOf out.2.2 = sumBits n fun x => if d x then conjVec ψ x * g x else 0 := by
+    show (sumBits n fun x => if d x then out.1 x * g x else 0) = _; rw [h1]
+  rw [vdot_add_right, h2, vdot_custom_op, ← vdot_customApply]
+  rfl
+
+/-- **The slot of a trainable custom gate accumulates `op_grad`** (and nothing else changes): one step of the backward loop on
+`PGate.custom (.param s) diag` adds `Σ_diag q0_conj'·q0_grad` to entry `(0, s)` of the gradient buffers — the statement an
+`ind_gate_to_info` entry without `ind_torch` cannot satisfy (`custom_as_constant_drops_gradient`). -/
+theorem custom_slot_accumulates (Θ G : Params R) (s : ℕ) (d : Bits n → Bool) (qc g : Vec n R) :
+    let out := (PGate.custom (Src.param s) d).back Θ (qc, g, G)
+    scalarOf (out.2.2 0 s) = scalarOf (G 0 s) + scalarOf (customGrad (scalarOf (Θ 0 s)) d qc g).2.2 ∧
+    ∀ k s', ¬ (k = 0 ∧ s' = s) → out.2.2 k s' = G k s' := by
+  intro out
+  refine ⟨?_, fun k s' h => addAt_other G 0 s _ k s' h⟩
+  show scalarOf (addAt G 0 s _ 0 s) = _
+  simp only [addAt, scalarOf, dite_true, if_true]
+  rfl
+
+/-- the same gate read as a constant (no `ind_torch`: the pre-fix info table) has the same forward value and state cotangent
+but leaves every gradient buffer untouched — so by `custom_single_gate_gradient` its slot gradient is wrong whenever the true
+derivative is non-zero. -/
+theorem custom_as_constant_drops_gradient (Θ G : Params R) (s : ℕ) (d : Bits n → Bool) (qc g ψ : Vec n R) :
+    (PGate.custom (Src.fixed (Θ 0 s)) d).apply Θ ψ = (PGate.custom (Src.param s) d).apply Θ ψ ∧
+    ((PGate.custom (Src.fixed (Θ 0 s)) d).back Θ (qc, g, G)).2.1 = ((PGate.custom (Src.param s) d).back Θ (qc, g, G)).2.1 ∧
+    ((PGate.custom (Src.fixed (Θ 0 s)) d).back Θ (qc, g, G)).2.2 = G := ⟨rfl, rfl, rfl⟩
+
+/-- **one trainable custom gate**: starting from zero buffers, the scalar the sweep stores in the gate's slot, paired with `δa`,
+is the cotangent paired with the derivative of the output in the direction `δa`. -/
+theorem custom_single_gate_gradient (Θ : Params R) (s : ℕ) (d : Bits n → Bool)
+    (hun : star (scalarOf (Θ 0 s)) * scalarOf (Θ 0 s) = 1) (ψ gout : Vec n R) (δa : R) :
+    let out := backward Θ [PGate.custom (Src.param s) d] (conjVec (forward Θ [PGate.custom (Src.param s) d] ψ), gout,
+      fun _ _ _ _ => 0)
+    star (scalarOf (out.2.2 0 s)) * δa = vdot gout (fun x => if d x then ψ x * δa else 0) := by
+  intro out
+  have h := customGate_vjp (scalarOf (Θ 0 s)) hun d ψ gout (fun _ => 0) δa
+  obtain ⟨_, h2⟩ := h
+  have hz : customApply (scalarOf (Θ 0 s)) d (fun _ : Bits n => (0 : R)) = fun _ => 0 := by
+    funext x; simp [customApply]
+  have h0 : ∀ v : Vec n R, vdot v (fun _ : Bits n => (0 : R)) = 0 := fun v => vdot_zero_right v
+  simp only [hz, add_zero, h0] at h2
+  rw [h2]
+  have hacc := (custom_slot_accumulates Θ (fun _ _ _ _ => (0 : R)) s d
+    (conjVec (forward Θ [PGate.custom (Src.param s) d] ψ)) gout).1
+  have : scalarOf (out.2.2 0 s) = scalarOf (customGrad (scalarOf (Θ 0 s)) d (conjVec (customApply (scalarOf (Θ 0 s)) d ψ)) gout).2.2 := by
+    have e : out = (PGate.custom (Src.param s) d).back Θ
+        (conjVec (forward Θ [PGate.custom (Src.param s) d] ψ), gout, fun _ _ _ _ => 0) := rfl
+    rw [e, hacc]
+    simp only [scalarOf, zero_add]
+    rfl
+  rw [this]
+
+/-! ## `inner_product_grad` (`state.py:260-269`) and the row stacking of `CircuitTorchWrapper.forward` -/
+
+/-- **`inner_product_grad` is the adjoint of `c = vdot(q0, q1)`**: `c` is antilinear in `q0` and linear in `q1`, so with torch's
+convention (`dL = Re⟪grad, dz⟫`) the `q0` half appears conjugated:
+`conj(c_grad)·(⟪δq0, q1⟫ + ⟪q0, δq1⟫) = conj ⟪q0_grad, δq0⟫ + ⟪q1_grad, δq1⟫`; the real parts of both sides are `dL`. -/
+theorem innerProductGrad_vjp (q0 q1 δq0 δq1 : Vec n R) (c : R) :
+    star c * (vdot δq0 q1 + vdot q0 δq1)
+      = star (vdot (innerProductGrad q0 q1 c).1 δq0) + vdot (innerProductGrad q0 q1 c).2 δq1 := by
+  simp only [innerProductGrad, vdot_eq, conj, star_sum, mul_add, mul_sum]
+  rw [← sum_add_distrib, ← sum_add_distrib]
+  refine sum_congr rfl fun x _ => ?_
+  simp only [star_mul', star_star]
+  ring
+
+/-- the stacked tensor row that `_setup` assigns to a gate (`slotOf`) is, in the concatenation built by
+`CircuitTorchWrapper.forward` (`stackTags`), the row of that gate's own parameters -/
+theorem forward_stacking_matches_setup (gs : List GateDesc) (i : ℕ) (hi : i < gs.length) (nm : String) (r : ℕ)
+    (h : slotOf gs i = some (nm, r)) :
+    (stackTags gs nm)[r]? = some (if gs[i].placeholder then (true, i) else (false, gs[i].objId)) :=
+  stack_row_of_slot gs i hi nm r h
+
 /-! ## the derivative is the genuine one: ε-coefficient over the dual numbers `R[ε]/(ε²)` -/
 
 /-- **`dforward` is the derivative of the whole circuit map**: run the *same* forward pass over the dual numbers at the
